@@ -36,6 +36,7 @@ let () =
           | "codec" -> (match hd with [k; c] -> run_codec k c ops | _ -> [[n_of_int 98]])
           | "topics" -> run_topics ops
           | "broker" -> run_broker hd ops
+          | "client" -> run_client hd ops
           | "live" -> run_live hd ops
           | "ring" -> (match hd with [s] -> run_ring s ops | _ -> [[n_of_int 98]])
           | "ackq" -> (match hd with [s] -> run_ackq s ops | _ -> [[n_of_int 98]])
